@@ -840,17 +840,13 @@ func readState(repo string) bState {
 // denote computes, with Git itself, which probes an entry denotes (pattern written by hand, C-quoted).
 func (c *bCtx) denote(e bEntry) map[string]bool {
 	d := map[string]bool{}
+	pat := e.Pat
 	if e.Filename {
-		p := e.Pat
-		if e.Cwd != "" {
-			p = e.Cwd + "/" + p
-		}
-		d[p] = true
-		return d
+		pat = literalPattern(pat)
 	}
 	repo := c.materialize(bState{})
 	defer os.RemoveAll(repo)
-	os.WriteFile(filepath.Join(repo, e.Cwd, ".gitattributes"), []byte(cquote(e.Pat)+" c19ref\n"), 0644)
+	os.WriteFile(filepath.Join(repo, e.Cwd, ".gitattributes"), []byte(cquote(pat)+" c19ref\n"), 0644)
 	m, inc := c.h.checkAttr(repo, []string{"c19ref"}, bProbes)
 	if inc != "" {
 		panic(vx.ToolError{Msg: inc})
@@ -1391,8 +1387,8 @@ func TestVerifC19(t *testing.T) {
 			short := len([]rune(n)) < L || L == 1
 			for mode := 0; mode < 2; mode++ {
 				for pl := 0; pl < 3; pl++ {
-					// quick tier: the longest names only in the root placement
-					if thorough || short || pl == plRoot {
+					// the longest names: quick tier only in the root placement, thorough tier in the root and inside dir/
+					if short || pl == plRoot || (thorough && pl == plInDir) {
 						a.cases = append(a.cases, aKey{mode, pl, n})
 					}
 				}
@@ -1417,7 +1413,7 @@ func TestVerifC19(t *testing.T) {
 	c.Bounds["palette"] = palette
 	c.Bounds["names"] = len(namesUpTo(L))
 	c.Bounds["names_cases"] = len(a.cases)
-	c.Bounds["names_quick_tier_restriction"] = "names of the maximal length only in the root placement; grammar as --filename only in the root placement"
+	c.Bounds["names_tier_restriction"] = "names of the maximal length L: quick only in the root placement, thorough in the root and invoked inside dir/ (shorter names and the grammar: all three placements); quick: grammar as --filename only in the root placement"
 	c.Bounds["grammar_patterns"] = len(grammar)
 	c.Bounds["modes"] = modeName
 	c.Bounds["placements"] = plName
